@@ -16,8 +16,9 @@ META = {
     "technique": "static analysis: doc-table vs code-table agreement, region reachability in the tokenizer loop, ownership typestate on "
                  "the option fields, must-pass-through of the flag stores before each per-file parse",
     "level_text": "Decides the option tokenizer (names, effects, unknown names, repetition) for every option string, and that the two "
-                  "parser flags reach every per-file parse of every layered read. Not decided: the join/reset semantics of "
-                  "JOIN_SAME_ENTRIES and the continuation semantics of PYTHON_STYLE inside the line loop (value-level behaviour).",
+                  "parser flags reach every per-file parse of every layered read. Also two structural necessary conditions of the option semantics: the join pass visits "
+                  "every later definition (O7) and under PYTHON_STYLE the delimiter search never runs for an indented line (O8). Not decided: the "
+                  "remaining join/reset and continuation semantics inside the line loop (value-level behaviour).",
     "level_note": "Partial. Trusted: clang front end/CFG, sa/own.py; the doc block of econf_newKeyFile_with_options in include/libeconf.h "
                   "is read as the documentation table.",
     "explanation": "tokenizer tables, repetition typestate, flag forwarding",
@@ -238,14 +239,80 @@ def run(prog, ctx):
     if len(jc) != 1:
         ctx.fail("O6", "join_same_entries() is called", rf.where, "%d calls" % len(jc), key="join-call")
     else:
+        o8(prog, ctx)
         ok, cut = rcfg.all_paths_cut(rcfg.block_of(jc[0]), lambda lit, b, i: lit is not None and lit.atom.endswith("->join_same_entries") and lit.pol)
         if ok and cut:
             ctx.ok("O6", "join_same_entries() runs only under the option", jc[0].where, "behind `ef->join_same_entries`")
         else:
             ctx.fail("O6", "join_same_entries() runs only under the option", jc[0].where, "reachable without the option: first-definition-wins is lost",
                      key="join-unconditional")
+        # O7: the join pass looks at every later definition of every entry
+        jf = prog.fn("join_same_entries")
+        ctx.touch(jf)
+        from sa import loops as _loops
+        fl = [x for x in jf.walk() if x.k == "ForStmt"]
+        outer = [x for x in fl if not any(a.k == "ForStmt" for a in x.ancestors())]
+        inner = [x for x in fl if any(a.k == "ForStmt" for a in x.ancestors())]
+        if len(outer) == 1 and len(inner) == 1:
+            so, si = _loops.for_shape(outer[0]), _loops.for_shape(inner[0])
+            obj = jf.params[0]["name"]
+            ok_shape = _loops.covers_range(so, 0, "%s->length" % obj) and si.ok and si.step > 0 and si.start == "%s + 1" % so.var and si.cmp == "<" and si.bound == "%s->length" % obj
+            early = [x for x in inner[0].child("body").walk() if x.k in ("BreakStmt", "GotoStmt") or (x.k == "ReturnStmt" and query.returned_constant(x) != "ECONF_NOMEM")]
+            early = [x for x in early if not any(a.k in ("ForStmt", "WhileStmt", "DoStmt", "SwitchStmt") and a is not inner[0] and a.within(inner[0]) for a in x.ancestors())]
+            if ok_shape and not early:
+                ctx.ok("O7", "the join pass visits every later definition of a key", inner[0].where, "%s; %s; no early exit" % (so.describe(), si.describe()))
+            elif not ok_shape:
+                ctx.fail("O7", "the join pass visits every later definition of a key", inner[0].where, "loops are `%s` / `%s`" % (so.describe(), si.describe()), key="join-range")
+            else:
+                ctx.fail("O7", "the join pass visits every later definition of a key", early[0].where,
+                         "the scan of later definitions is left early (%s): with three or more definitions only the first ones are joined" % early[0].k, key="join-early-exit")
+        else:
+            ctx.inconclusive("O7", "the join pass visits every later definition of a key", jf.where, "pairwise loops not recognised")
         a0 = render(jc[0].call_args()[0])
         if a0 == rf.params[0]["name"]:
             ctx.ok("O6", "join_same_entries() works on the file being read", jc[0].where, a0)
         else:
             ctx.fail("O6", "join_same_entries() works on the file being read", jc[0].where, "argument %s" % a0, key="join-arg")
+
+
+def o8(prog, ctx):
+    """O8: under PYTHON_STYLE an indented line is a continuation whatever it contains: the 'a delimiter was found' decision may only be
+    taken on paths where the option is off or the raw line is not indented"""
+    from rules import parser
+    L = parser.landmarks(prog)
+    rf, cfg = L.fn, L.cfg
+    sts = [st for lhs, rhs, st, kind in query.stores(rf) if render(lhs) == "found_delim" and rhs is not None and rhs.const_value() != 0]
+    decls = [n for n in rf.walk() if n.k == "DeclStmt" and any(d["name"] == "found_delim" for d in n.j.get("decls", []))]
+    if not decls:
+        ctx.inconclusive("O8", "python style: an indented line continues the value even if it contains the delimiter", rf.where, "`found_delim` vanished")
+        return
+    for d in decls[0].j.get("decls", []):
+        if d["name"] == "found_delim" and d.get("init", -1) >= 0 and rf.nodes[d["init"]].const_value() != 0:
+            ctx.fail("O8", "python style: an indented line continues the value even if it contains the delimiter", decls[0].where,
+                     "`found_delim` starts as `%s` for every line: under PYTHON_STYLE an indented `word=...` line becomes a new key instead of continuing the value"
+                     % render(rf.nodes[d["init"]]), key="python-found-delim")
+            return
+    if not sts:
+        ctx.inconclusive("O8", "python style: an indented line continues the value even if it contains the delimiter", rf.where, "no assignment decides found_delim")
+        return
+
+    def not_python_indented(lit, b, i):
+        if lit is None:
+            return False
+        if lit.atom.endswith("->python_style") and not lit.pol:
+            return True
+        if "__ctype_b_loc" in lit.atom and "org_buf" in lit.atom and not lit.pol:
+            return True
+        return False
+    bad = None
+    for st in sts:
+        ok, cut = cfg.all_paths_cut(cfg.block_of(st), not_python_indented, start=cfg.block_of(decls[0]))
+        if not (ok and cut):
+            bad = st
+    if bad is None:
+        ctx.ok("O8", "python style: an indented line continues the value even if it contains the delimiter", sts[0].where,
+               "all %d assignments that can set found_delim are behind `python_style == false || !isspace(*org_buf)`" % len(sts))
+    else:
+        ctx.fail("O8", "python style: an indented line continues the value even if it contains the delimiter", bad.where,
+                 "`%s` is reachable for an indented line under PYTHON_STYLE: an indented `word=...` line becomes a new key instead of continuing the value" % render(bad),
+                 key="python-found-delim")
